@@ -1,7 +1,7 @@
 """Per-property configuration of ./check: Lean modules, correspondence streams, oracles, and the
 texts that go into MANIFEST.json (regenerate with ./mkmanifest.py)."""
 
-HOOK_COMMITS = ["42d3529", "6304aea", "b625c0d", "ec24054"]
+HOOK_COMMITS = ["42d3529", "6304aea", "b625c0d", "ec24054", "b4e8b86"]
 NOT_APPLICABLE = {}
 
 PROPS = {
@@ -14,8 +14,12 @@ PROPS = {
                  "matches no reducible pixel), RGB(A)->gray(+alpha) incl. key, dropping an opaque alpha channel, palette entries built from pixels, bit replication 1/2/4<->8; every "
                  "reduction is modelled literally and compared with the code output-for-output (exact streams), interlacing likewise; the end-to-end oracle decodes input and output with "
                  "an independent reference decoder and compares all pixels at 16-bit precision for generated files x generated option sets (alpha and scale16 off) incl. 2-step chains.",
-        "note": "Partial: the per-pixel theorems are proved; their lift to whole images through `sem` (storage order x geometry) and the lineage theorem over perform_reductions are growth items, "
-                "so image-level losslessness currently rests on the exact correspondence streams plus the e2e oracle. Trusted: D1 (inflate∘deflate), harness reference decoder (cross-checked against the png crate in C02).",
+        "note": "IMAGE LEVEL, proved for every size and content (Spec.samePicture: same geometry and the same 16-bit RGBA meaning at every stored position): depth16to8_lossless (exact path, all four "
+                "16-bit colour types, with or without key), rgb_to_gray_lossless (8/16 bit, key carried or dropped), drop_alpha_lossless (opaque alpha, 8/16 bit; via a characterisation of the scanning "
+                "fold), to_indexed_lossless (gray / gray+alpha / RGB / RGBA with or without key; build_palette specification by induction), indexed_to_channels_lossless (all four target types, "
+                "out-of-range index = opaque black on both sides), reduced_palette_lossless (invariant of the condensing loop). Still at per-pixel level only: 1/2/4<->8 bit packing, sorted_palette "
+                "and the interlacing change (their storage geometry is C18's subject); the chain over perform_reductions is tied by the lineage streams. Trusted: D1 (inflate∘deflate), "
+                "harness reference decoder (cross-checked against the png crate in C02).",
         "technique": "Lean 4 proof (per-pixel exactness lemmas) + exact model/implementation correspondence + e2e oracle",
         "partial_note": "image-level lift (sem) and pipeline lineage theorem pending; covered by correspondence + oracle meanwhile",
         "rule": "corr-reduce: each of the 10 modelled reductions on images biased to its domain (hi==lo 16-bit, gray-valued RGB, replicated bit patterns, opaque/binary alpha, keys used/unused/near-miss, "
@@ -40,7 +44,8 @@ PROPS = {
         "lean": ["OxiModel.Props.C08"],
         "streams": [{"name": "corr-lineage", "args": ["C08"], "quick": 1600, "thorough": 30000},
                     {"name": "corr-reduce", "quick": 4000, "thorough": 80000}],
-        "oracles": [{"name": "e2e", "args": ["C08"], "quick": 4000, "thorough": 60000}],
+        "oracles": [{"name": "e2e", "args": ["C08"], "quick": 4000, "thorough": 60000},
+                    {"name": "oracle-meta", "args": ["C08"], "quick": 2000, "thorough": 30000}],
         "claim": "Lean 4 theorems: one frame lemma per reduction (what it may change in the header), the guard table of perform_reductions, `step_respects` (every allowed operation respects every "
                  "disabled switch: bit depth, colour-type code, gray/colour, exact palette of an image that stays indexed, interlace flag, dimensions) and the closure theorem over arbitrary chains of "
                  "allowed operations (leaf result not extended), plus `nothing_enabled_identity`. Orchestration is tied by lineage reconstruction: every image handed to an evaluator (tap) and the image "
@@ -131,9 +136,11 @@ PROPS = {
         "claim": "Lean 4 theorems about the flag translation (parse_opts_into_struct + Options::from_preset) for all flag records: the preset table equals the manual's for every level (decide over the whole "
                  "finite table), presets touch only three fields, explicit -f / --zc / --fast / -i override any preset (the model has no notion of argument order), --nx implies keep-interlacing unless -i "
                  "is given and switches the four reductions off, the switch flags, the strip/keep policy table incl. the forbidden names; exit status = 0 if any ok else 1 if any failed else 3 (proved against "
-                 "the fold in main); directories are descended only with --recursive and nested files filtered by extension. The REAL executable is run on generated flag vectors in shuffled order: the options "
+                 "the fold in main); directories are descended only with --recursive and nested files filtered by extension; the DESTINATION of every collected file (`fileOut`: --pretend wins over "
+                 "every destination option and writes nowhere; --stdout; --dir D gives D/<same name> carrying --preserve; otherwise --out or the input itself; `route_cases`: nothing else). The REAL executable is run on generated flag vectors in shuffled order: the options "
                  "it parsed (dump hook) must equal the model's; its output must be byte-identical to optimize_from_memory called with those options and be delivered in place / --out / --dir/<name> / "
-                 "stdout (nothing else on that stream) / nowhere (--pretend); exit statuses over mixed file sets and directory recursion are compared with the model.",
+                 "stdout (nothing else on that stream) / nowhere (--pretend, also combined with --dir/--out/--stdout in either order; no file may appear anywhere but at the destination); the (input, output) "
+                 "pairs collect_files produced (second dump hook) must equal the model's fileOut; exit statuses over mixed file sets and directory recursion are compared with the model.",
         "note": "Partial: clap itself (C1), process exit plumbing and log routing are runtime; they are exercised by the real binary, not proved. stdin input is not generated.",
         "technique": "Lean 4 proof (decision tables, decide over finite preset table) + real-binary correspondence and routing oracle",
         "partial_note": "clap / process plumbing are outside the model",
@@ -255,7 +262,10 @@ PROPS = {
         "oracles": [],
         "claim": "Lean 4 theorems about min_by_key over cmp_key: the selected candidate is a completed trial, no completed trial has a smaller key, ties follow the fixed rule "
                  "(size, raw length, filter, later submission), the choice is a function of the set of completed trials (arrival order irrelevant). The implementation's "
-                 "winner (tap on every get_best_candidate call site and on the final acceptance) is compared with the model's on replayed real histories, incl. tie images.",
+                 "winner (tap on every get_best_candidate call site and on the final acceptance) is compared with the model's on replayed real histories, incl. tie images. "
+                 "The fast path's hand-over between its two evaluators is modelled too (`handoff`): theorem handoff_minimal - what goes on is the result in hand or a completed trial of the second "
+                 "evaluator and nothing of either kind has a smaller key; every fast-path history is replayed through it, and the rule is also evaluated directly on each history "
+                 "(winner-not-rule-minimum, handoff-lost-*). This is where the repaired defect 1734855 showed.",
         "note": "The published set and winner come from the taps; the emitted IDAT being the winner's is checked through the Final event and the e2e oracles of C01/C02.",
         "technique": "Lean 4 proof (order theory on cmp_key) + event-history replay",
         "rule": "as C06: one history per evaluator instance; distinct = distinct history lines",
